@@ -26,6 +26,7 @@ from .. import upj
 from ..common import MachineryError, time_limit, ImplTimeout
 
 WORKERS = 8
+NPROC = 4  # processes replaying cases on the real library
 LIMIT = 10  # seconds per construction (milliseconds in practice; the limit only stops a looping mutant)
 SMALL = 1000  # |numerator|, denominator <= SMALL are written as native TLC integers
 
@@ -55,7 +56,7 @@ MENUS = {
         l2f=["iu", "il", "ib", "rb"],
         l2c=[4, 7],
         l3f=["ib", "rl"],
-        l3c=[7],
+        l3c=[],
     ),
     "thorough": dict(
         l1f=["iu", "il", "ilp", "ih", "ihn", "ib", "ibp", "ibn", "iz", "ru", "rl", "rlp", "rh", "rhn", "rb", "rbp", "rbn"],
@@ -271,6 +272,7 @@ def observe(decl, case, fam, cid):
         "id": cid,
         "i": case.get("i", 0),
         "j": case.get("j", 0),
+        "m": 0,
         "g": case.get("g", fam),
         "e": case["e"],
         "ok": False,
@@ -307,6 +309,32 @@ def observe(decl, case, fam, cid):
         rec["ts"] = []
         rec["e"] = case["e"]
     return rec
+
+
+def _observe_chunk(a):
+    decl, items = a
+    return [observe(decl, c, fam, cid) for (c, fam, cid) in items]
+
+
+def observe_all(decl, items, nproc=NPROC):
+    """observe (case, family, id) triples in forked worker processes; results in id order"""
+    import multiprocessing
+
+    if nproc <= 1 or len(items) < 200:
+        return _observe_chunk((decl, items))
+    n = 4 * nproc
+    with multiprocessing.get_context("fork").Pool(nproc) as pool:
+        res = pool.map(_observe_chunk, [(decl, items[k::n]) for k in range(n)], chunksize=1)
+    out = [o for r in res for o in r]
+    out.sort(key=lambda o: o["id"])
+    return out
+
+
+def link_mirrors(obs):
+    """m = 1-based position of the record of the mirrored equality (structure only; the judge re-checks i, j)"""
+    pos = {(o["i"], o["j"]): n + 1 for n, o in enumerate(obs) if o["fam"] == "eq"}
+    for o in obs:
+        o["m"] = pos[(o["j"], o["i"])] if o["fam"] == "eq" else 0
 
 
 # ----------------------------------------------------------------------------------------
@@ -391,7 +419,7 @@ def select(ctx, fams):
     num = fams["num"]
     if not ctx.quick:
         return num
-    cap = {"d2": 1500, "d2b": 400, "n3": 200}
+    cap = {"d2": 1200, "d2b": 300, "n3": 150}
     byg = {}
     for c in num:
         byg.setdefault(c["g"], []).append(c)
@@ -426,7 +454,7 @@ CORRUPTIONS = [
      lambda o: (o.__setitem__("ok", False), o.__setitem__("exc", "UPTypeError")), "EqRef"),
     ("both orientations of object = unrelated object accepted", "eq", lambda o: (not o["ok"]) and {o["i"], o["j"]} == {28, 32},
      lambda o: o.__setitem__("ok", True), "EqRef"),
-    ("upper bound of a big product lowered", "big", lambda o: o["ok"] and o["e"]["op"] == "times" and o["t"]["hi"]["k"] == "N" and o["t"]["hi"]["s"] == 1,
+    ("upper bound of a big product lowered", "big", lambda o: o["ok"] and o["e"]["op"] == "times" and o["t"]["hi"]["k"] == "N" and o["t"]["hi"]["s"] == 1 and len(o["t"]["hi"]["n"]) > len(o["t"]["hi"]["d"]) + 1,
      lambda o: [t.__setitem__("hi", {"k": "n", "n": 7, "d": 1}) for t in (o["t"], o["t2"], o["ts"][0])], "InType.Upper"),
 ]
 
@@ -453,6 +481,7 @@ def corruption_check(ctx, obs):
                 expect[nid] = (label, clause)
             first = False
             batch.append(c)
+    link_mirrors(batch)
     fails, _, _ = run_judge(ctx, "corrupt", batch)
     got = {}
     for f in fails:
@@ -474,9 +503,9 @@ def run(ctx):
     t0 = time.time()
     shallow = [c for c in num if c["g"] in ("leaf", "d1")]
     deep = [c for c in num if c["g"] not in ("leaf", "d1")]
-    t1c = shallow + deep[:: max(1, len(deep) // (600 if ctx.quick else 10000))]
+    t1c = shallow + deep[:: max(1, len(deep) // (300 if ctx.quick else 8000))]
     t1 = [
-        {"fam": "num", "id": i, "i": 0, "j": 0, "g": c["g"], "e": c["e"], "ok": True, "exc": "", "t": TBAD, "t2": TBAD, "ts": []}
+        {"fam": "num", "id": i, "i": 0, "j": 0, "m": 0, "g": c["g"], "e": c["e"], "ok": True, "exc": "", "t": TBAD, "t2": TBAD, "ts": []}
         for i, c in enumerate(t1c)
     ]
     fails, infos, _ = run_judge(ctx, "t1-self", t1, mode="self")
@@ -485,10 +514,12 @@ def run(ctx):
     ctx.notes["t_t1_s"] = round(time.time() - t0, 1)
     t0 = time.time()
     # ---- T2: replay on the real library ---------------------------------------------------
-    obs = []
+    items = []
     for fam, cases in (("num", num), ("exact", fams["exact"]), ("eq", fams["eq"]), ("big", fams["big"])):
         for c in cases:
-            obs.append(observe(decl, c, fam, len(obs)))
+            items.append((c, fam, len(items)))
+    obs = observe_all(decl, items)
+    link_mirrors(obs)
     byid = {o["id"]: o for o in obs}
     ctx.cov["evaluations"] += len(obs)
     renorm = sum(1 for o, c in zip(obs, list(num) + fams["exact"] + fams["eq"] + fams["big"]) if o["ok"] and o["e"] != c["e"])
@@ -565,6 +596,7 @@ def replay(ctx, data):
         obs.append(observe(decl, {"e": E("eq", [b, a]), "i": 2, "j": 1}, "eq", 1))
     else:
         obs.append(observe(decl, {"e": o["e"], "g": o["g"]}, o["fam"], 0))
+    link_mirrors(obs)
     fails, infos, _ = run_judge(ctx, "replay", obs)
     for r in obs:
         print("REPLAY built=%s exc=%s type=%s" % (r["ok"], r["exc"], r["t"]))
